@@ -5,7 +5,7 @@ CONSTANTS
   Payload = 2
   ReplyLen = 2
   Mode = "faults"
-  Behs = {"ok0", "ok1", "ok2", "okinfo", "okwarn", "oksource", "missing", "noexec", "exit1", "exit255", "sigkill", "sigsegv", "stderr0", "noread", "trunc1", "truncmid", "trunclast", "badbool", "badutf8", "badutf8cut", "badcontents", "badcontentsmid", "badmsg", "badmsgcut", "badsource", "badsourcecut", "badlevel", "hugesize", "empty"}
+  Behs = {"ok0", "ok1", "ok2", "okinfo", "okwarn", "oksource", "missing", "noexec", "exit1", "exit255", "sigkill", "sigsegv", "replykill", "replyabrt", "stderr0", "noread", "trunc1", "truncmid", "trunclast", "badbool", "badutf8", "badutf8cut", "badcontents", "badcontentsmid", "badmsg", "badmsgcut", "badsource", "badsourcecut", "badlevel", "hugesize", "empty"}
   AllowReplyFirst = FALSE
 INVARIANTS GeneratorsOnlyAfterCleanCompile DryRunMeansNoGenerators WarningsDoNotBlock ExitNonZeroIffError EveryFailureNamesItsGenerator OtherGeneratorsHonoured FilesOnlyFromDecodedReply MeetsExpected DeadlockFree
 PROPERTY NoHang
